@@ -1637,6 +1637,7 @@ static string opLts(const vector<string>& a)
 #include "ops/op_achain.inc"
 #include "ops/op_bddsim.inc"
 #include "ops/op_binrel.inc"
+#include "ops/op_cacheh.inc"
 
 // ---------------------------------------------------------------- API sweep (C20): every remaining public entry point of the four
 // encodings is called once on well-formed operands; each call may complete ('R'), throw NotImplementedException ('N') or
@@ -1774,6 +1775,7 @@ static string runCase(const string& kind, const vector<string>& args)
 	if (kind == "achain") return opAchain(args);
 	if (kind == "bddsim") return opBddsim(args);
 	if (kind == "binrel") return opBinrel(args);
+	if (kind == "cacheh") return opCacheh(args);
 	return "BADKIND";
 }
 
